@@ -143,5 +143,22 @@ pub fn run(seed: u64, thorough: bool) -> Vec<Value> {
         let o = match r { Ok(true) => "accepted".to_string(), Ok(false) => "refused".into(), Err(e) => format!("panic:{}", panic_message(e)) };
         out.push(json!({"ev": "encamt", "proved": amt(7), "claimed": amt(a), "out": o, "same": a == 7}));
     }
+    // the same at the far end of the range: a refund of 2^63-1 on a channel (0, 2^63-1) is accepted for exactly that amount
+    // and refused for the neighbouring wire-decodable amounts -2^63 (whose magnitude does not fit an i64) and -(2^63-2)
+    {
+        let big = i64::MAX;
+        let info2 = g.honest_ready(0, big as u64, &[]);
+        let (_b2, ptree2, nonce_b2) = g.honest_pay_proof_pub(&info2, -big);
+        let nonce2: zkabacus_crypto::Nonce = bincode::deserialize(&nonce_b2).unwrap();
+        let m = g.world.mers[0];
+        for a in [-big, i64::MIN, -big + 1, big] {
+            let p: zkabacus_crypto::PayProof = bincode::deserialize(&ptree2.bytes).unwrap();
+            let amount: PaymentAmount = bincode::deserialize(&a.to_le_bytes()).unwrap();
+            let mut r2 = seeded(seed, 94);
+            let r = catch_unwind(AssertUnwindSafe(|| m.allow_payment(&mut r2, amount, &nonce2, p, &info2.ctx).is_some()));
+            let o = match r { Ok(true) => "accepted".to_string(), Ok(false) => "refused".into(), Err(e) => format!("panic:{}", panic_message(e)) };
+            out.push(json!({"ev": "encamt", "proved": amt(-big), "claimed": amt(a), "out": o, "same": a == -big}));
+        }
+    }
     out
 }
